@@ -82,14 +82,14 @@ theorem readUntilImageData_ub {cfg : Cfg} {t : TCfg} {r s : R} (h : readUntilIma
       cases hi : infoOf r' with
       | none => rw [hi] at h; cases h
       | some i =>
-        rw [hi] at h; simp only at h
-        cases hb : bppFromUsize (bytesPerPixel i.color i.depth) with
-        | none => rw [hb] at h; cases h
-        | some bpp =>
-          rw [hb] at h; simp only [reserveBytes] at h
-          by_cases hl : r'.dec.limit ≥ outLineSize t i r'.flags (Sub.new i).width
-          · rw [if_pos hl] at h; simp only [Prod.mk.injEq] at h; obtain ⟨rfl, _⟩ := h; rfl
-          · rw [if_neg hl] at h; cases h
+        rw [hi] at h; simp only [reserveBytes] at h
+        by_cases hl : r'.dec.limit ≥ outLineSize t i r'.flags (Sub.new i).width
+        · rw [if_pos hl] at h; simp only at h
+          cases hb : bppFromUsize (bytesPerPixel i.color i.depth) with
+          | none => rw [hb] at h; cases h
+          | some bpp =>
+            rw [hb] at h; simp only [Prod.mk.injEq] at h; obtain ⟨rfl, _⟩ := h; rfl
+        · rw [if_neg hl] at h; cases h
 
 /-- the reader `next_frame` leaves: the frame is consumed, no row is current, one frame less remains -/
 theorem frameInto_leaves (cfg : Cfg) {t : TCfg} (ht : t.Ok) {r rE : R} {buf B : Bytes} {oi : OutputInfo}
